@@ -37,6 +37,10 @@ type decideSpec struct {
 	ignore []string          // roots of logging expressions
 	// statements (printed) that change state outside the decision and are declared as such: skipped
 	effects []string
+	// identifiers dropped from argument lists (contexts, handles the Lean parameter already closes over)
+	dropArgs []string
+	// element type of the lists search loops run over (default String)
+	elemType string
 	okWrap string            // how `return v, nil` is written: "pure" etc.
 }
 
@@ -135,6 +139,24 @@ func (t *decideTr) expr(e ast.Expr) (string, error) {
 }
 
 func leanIdent(s string) string { return "v_" + s }
+
+func (t *decideTr) args(as []ast.Expr) ([]string, error) {
+	var out []string
+next:
+	for _, a := range as {
+		for _, d := range t.spec.dropArgs {
+			if t.text(a) == d {
+				continue next
+			}
+		}
+		s, err := t.expr(a)
+		if err != nil {
+			return nil, err
+		}
+		out = append(out, s)
+	}
+	return out, nil
+}
 
 // hasReturn: does the statement list (transitively) contain a return?
 func hasReturn(ss []ast.Stmt) bool {
@@ -270,13 +292,9 @@ func (t *decideTr) stmts(ss []ast.Stmt, fall string) (string, error) {
 				e, ok2 := x.Lhs[1].(*ast.Ident)
 				if known && ok1 && ok2 && len(rest) > 0 {
 					if chk, ok := rest[0].(*ast.IfStmt); ok && chk.Init == nil && chk.Else == nil && t.text(chk.Cond) == e.Name+" != nil" {
-						var args []string
-						for _, a := range call.Args {
-							as, err := t.expr(a)
-							if err != nil {
-								return "", err
-							}
-							args = append(args, as)
+						args, err := t.args(call.Args)
+						if err != nil {
+							return "", err
 						}
 						t.errFrom[e.Name] = callee
 						onErr, err := t.stmts(chk.Body.List, "")
@@ -326,13 +344,9 @@ func (t *decideTr) stmts(ss []ast.Stmt, fall string) (string, error) {
 			if call, ok := as.Rhs[0].(*ast.CallExpr); ok {
 				callee := t.text(call.Fun)
 				if fn, known := t.spec.calls[callee]; known && t.text(x.Cond) == t.text(as.Lhs[0])+" != nil" {
-					var args []string
-					for _, a := range call.Args {
-						s, err := t.expr(a)
-						if err != nil {
-							return "", err
-						}
-						args = append(args, s)
+					args, err := t.args(call.Args)
+					if err != nil {
+						return "", err
 					}
 					t.errFrom[t.text(as.Lhs[0])] = callee
 					onErr, err := t.stmts(x.Body.List, "")
@@ -395,7 +409,11 @@ func (t *decideTr) stmts(ss []ast.Stmt, fall string) (string, error) {
 			if err != nil {
 				return "", err
 			}
-			return fmt.Sprintf("(let rec loop : List String → %s\n    | [] => %s\n    | %s :: rest => %s\n  loop (%s))", t.spec.result, after, leanIdent(v.Name), body, coll), nil
+			et := t.spec.elemType
+			if et == "" {
+				et = "String"
+			}
+			return fmt.Sprintf("(let rec loop : List "+et+" → %s\n    | [] => %s\n    | %s :: rest => %s\n  loop (%s))", t.spec.result, after, leanIdent(v.Name), body, coll), nil
 		}
 	}
 	return "", fmt.Errorf("statement not in the subset: %s", strings.SplitN(t.text(s), "{", 2)[0])
@@ -475,6 +493,18 @@ var decideSpecs = []*decideSpec{
 		},
 		ignore:  []string{"log"},
 		effects: []string{"i.interfaces = append(i.interfaces, iface)"},
+	},
+	{
+		file: "internal/template_generator.go", recv: "", fn: "validateSchema", lean: "validateSchema",
+		params: "{I : Type} (schemaIsNil : Bool) (verifyFile : Option Unit) (interfaces : List I) (verify : I → Option Unit)",
+		result: "Except String Unit",
+		atoms:  map[string]string{"schema == nil": "schemaIsNil", "data.Interfaces": "interfaces"},
+		calls:  map[string]string{"data.TemplateData.VerifyJSONSchema": "verifyFile", "intf.TemplateData.VerifyJSONSchema": "verify v_intf"},
+		errs: map[string]string{"\"jschema argument can't be nil\"": "\"nil-schema\"", "\"validating template-data\"": "\"file-level\"",
+			"\"verifying template-data for %s: %w\"": "\"interface-level\""},
+		ignore:   []string{"log"},
+		dropArgs: []string{"ctx", "schema"},
+		elemType: "I",
 	},
 	{
 		file: "tools/cmd/tag.go", recv: "Tagger", fn: "Tag", lean: "taggerTag",
